@@ -15,7 +15,8 @@ Definition run_c11 (k : Z) (args : list (list Z)) : list (list Z) :=
   let mask := mask_opt (argz 1 args) (arg 2 args) in
   let maxlen := if argz 3 args =? 0 then None else Some (argz 4 args) in
   let len := len_of (argz 6 args) (argz 7 args) (arg 8 args) in
-  if k =? 1101 then trace_out (trace nxt0 mask maxlen len (S (length nxt0)) (argn 5 args) 0)
+  if k =? 1100 then [[0]]    (* geographic (float) path lengths: decided on the implementation side *)
+  else if k =? 1101 then trace_out (trace nxt0 mask maxlen len (S (length nxt0)) (argn 5 args) 0)
   else if k =? 1102 then
     (* direction 'up' through the object: next = main upstream cell for the default upstream area *)
     let sq := ns (arg 9 args) in
